@@ -239,3 +239,28 @@ def chain_family(filters) -> str:
 
 
 HEADER_MODES = ["raw", "encoded", "encrypted-flag", "encrypted-setter", "encrypted-flag+enc", "encrypted-setter+enc"]
+
+
+def force_crc(prefix: bytes, target: int = 0) -> bytes:
+    """prefix + 4 bytes chosen such that the CRC-32 of the whole equals `target` (CRC-32 is affine in the last four bytes)"""
+    import zlib
+
+    base = zlib.crc32(prefix + b"\0\0\0\0")
+    basis = {}
+    for i in range(32):
+        v = zlib.crc32(prefix + (1 << i).to_bytes(4, "little")) ^ base
+        t = 1 << i
+        for b in sorted(basis, reverse=True):
+            if v >> b & 1:
+                v ^= basis[b][0]
+                t ^= basis[b][1]
+        if v:
+            basis[v.bit_length() - 1] = (v, t)
+    v, t = base ^ target, 0
+    for b in sorted(basis, reverse=True):
+        if v >> b & 1:
+            v ^= basis[b][0]
+            t ^= basis[b][1]
+    out = prefix + t.to_bytes(4, "little")
+    assert zlib.crc32(out) == target
+    return out
